@@ -183,14 +183,14 @@ fn calculate_key_id(
         None,
     )?;
     let public_key = Json::canonicalize(&Json::serialize(&public_key)?)?;
-    let public_key = String::from_utf8(public_key)
-        .map_err(|e| {
-            Error::Encoding(format!(
-                "public key from bytes to string failed: {}",
-                e,
-            ))
-        })?
-        .replace("\\n", "\n");
+    let public_key = String::from_utf8(public_key).map_err(|e| {
+        Error::Encoding(format!(
+            "public key from bytes to string failed: {}",
+            e,
+        ))
+    })?;
+    let public_key =
+        crate::interchange::cjson::unescape_for_signing(&public_key);
     let mut context = digest::Context::new(&SHA256);
     context.update(public_key.as_bytes());
 
